@@ -74,6 +74,7 @@ def dispatch (j : Json) : Except String Json := do
   | "cfg_build" => opCfgBuild j
   | "replace_args" => opReplaceArgs j
   | "add_arg" => opAddArg j
+  | "call_target" => opCallTarget j
   | "prec" => opPrec j
   | "prec_walrus" => opPrecWalrus j
   | "prec_eval" => opPrecEval j
